@@ -579,4 +579,3 @@ func main() {
 	}
 	r.Finish(r.N(3000, 5000))
 }
-
